@@ -189,6 +189,14 @@ def fidelity_judge(o, v, sid):
             problems.append("method %s -> %s" % (s["method"], a["method"]))
         if a["path"] != urllib.parse.unquote(s["path"]):
             problems.append("path %r -> %r" % (urllib.parse.unquote(s["path"]), a["path"]))
+        # the path as it went over the wire (the stub's RequestURI), not only its decoded form
+        wire = a.get("uri", "").split("?", 1)[0]
+        if a["path"] == urllib.parse.unquote(s["path"]) and wire != s["path"]:
+            kf = [k for k in vlib.known_findings("C04") if k.get("deviation") == "EscapedSlash"]
+            if kf and wire == s["path"].replace("%2F", "/").replace("%2f", "/"):
+                v.known_finding(kf[0]["what"])
+            else:
+                problems.append("escaped path on the wire %r -> %r" % (s["path"], wire))
         if decode_q(a["rawquery"]) != decode_q(s["query"]):
             problems.append("query %r -> %r" % (s["query"], a["rawquery"]))
         sent_len = s["bodySize"]
